@@ -12,7 +12,7 @@ import (
 )
 
 // DataClass names a family of plaintexts; Make realises one member.
-var DataClasses = []string{"empty", "one", "zeros", "zeroprefix", "run", "random", "text", "periodic", "xx", "alternating", "sparse", "ramp", "nearrandom"}
+var DataClasses = []string{"empty", "one", "zeros", "zeroprefix", "run", "random", "text", "periodic", "xx", "alternating", "sparse", "ramp", "nearrandom", "lowentropy"}
 
 // MakeData builds a plaintext of roughly n bytes from a class and a seed.
 func MakeData(class string, n int, seed int64) []byte {
@@ -84,6 +84,28 @@ func MakeData(class string, n int, seed int64) []byte {
 			b[i] = byte(perm[r.Intn(a)])
 		}
 		return b
+	case "lowentropy":
+		// runs, period-2 and period-3 patterns and two-symbol noise in segments of 300..3000
+		// bytes: the match finders see candidates at every distance, also across the point
+		// where the encoder's ring buffer wraps
+		b := make([]byte, 0, n)
+		for len(b) < n {
+			k := 300 + r.Intn(2700)
+			x, y, z := byte(r.Intn(256)), byte(r.Intn(256)), byte(r.Intn(256))
+			switch r.Intn(4) {
+			case 0:
+				b = append(b, bytes.Repeat([]byte{x}, k)...)
+			case 1:
+				b = append(b, bytes.Repeat([]byte{x, y}, k/2+1)...)
+			case 2:
+				b = append(b, bytes.Repeat([]byte{x, y, z}, k/3+1)...)
+			default:
+				for i := 0; i < k; i++ {
+					b = append(b, []byte{x, y}[r.Intn(2)])
+				}
+			}
+		}
+		return b[:n]
 	case "ramp":
 		b := make([]byte, n)
 		for i := range b {
